@@ -39,9 +39,9 @@ func VerifH_C08_DeferredRaces() {
 	opB := vChoose("opB", 3)
 	vAssume(opA <= opB)
 	if vTier() == 1 {
-		// thorough: three concurrent calls
-		opC := vChoose("opC", 3)
-		vAssume(opB <= opC)
+		// thorough: a third concurrent call, one of the two mutating operations (Put, or the
+		// Finalize/Close that ends the session)
+		opC := []int{0, 2}[vChoose("opC", 2)]
 		vConcurrently(
 			func() { vDWOp(dw, opA, b1, first.c) },
 			func() { vDWOp(dw, opB, b2, first.c) },
